@@ -15,8 +15,10 @@ import (
 	"io"
 	"math/rand/v2"
 	"net/http"
+	"strings"
 
 	"cuelabs.dev/go/oci/ociregistry"
+	"cuelabs.dev/go/oci/ociregistry/ocimem"
 
 	"verifharness/internal/evid"
 	"verifharness/internal/model"
@@ -344,6 +346,99 @@ func content(rng *rand.Rand, n int) []byte {
 	return b
 }
 
+// failNth answers the n-th PATCH request (1-based) with a 503 of its own, without passing it on:
+// the registry never sees that request.
+type failNth struct {
+	inner http.RoundTripper
+	n     int
+	seen  int
+	fired bool
+}
+
+func (t *failNth) RoundTrip(req *http.Request) (*http.Response, error) {
+	if req.Method == "PATCH" {
+		t.seen++
+		if t.seen == t.n {
+			t.fired = true
+			if req.Body != nil {
+				io.Copy(io.Discard, req.Body)
+				req.Body.Close()
+			}
+			body := `{"errors":[{"code":"UNAVAILABLE","message":"try again"}]}`
+			return &http.Response{StatusCode: 503, Status: "503 Service Unavailable", Proto: "HTTP/1.1", ProtoMajor: 1, ProtoMinor: 1,
+				Header: http.Header{"Content-Type": {"application/json"}}, Body: io.NopCloser(strings.NewReader(body)), ContentLength: int64(len(body)), Request: req}, nil
+		}
+	}
+	return t.inner.RoundTrip(req)
+}
+
+// transientFailure: one data-carrying request of an upload over HTTP is refused by something in front
+// of the registry; the caller retries the Write that reported the error (a Write that fails has
+// written nothing it did not account for) and carries on. What is committed is exactly what the
+// successful Writes were given.
+func transientFailure(run *evid.Run, idx int) {
+	rng := run.Rand(44, uint64(idx))
+	fn := &failNth{n: 1 + idx%3}
+	reg, closeAll := stack.HTTP(ocimem.New(), stack.HTTPOpts{Wrap: func(rt http.RoundTripper) http.RoundTripper { fn.inner = rt; return fn }})
+	defer closeAll()
+	hint := []int{0, 1, 100, 4096, 8192}[rng.IntN(5)]
+	w, err := reg.PushBlobChunked(bg, "t/r", hint)
+	if err != nil {
+		run.Inconclusive("transient-failure setup: " + err.Error())
+		return
+	}
+	cs := w.ChunkSize()
+	run.Eval(1)
+	var accepted []byte
+	var log []string
+	nparts := 3 + rng.IntN(4)
+	retried := false
+	for i := 0; i < nparts; i++ {
+		n := []int{cs / 2, cs, cs + 1, 1, 2 * cs, cs - 1}[rng.IntN(6)]
+		if n <= 0 {
+			n = 1
+		}
+		p := make([]byte, n)
+		for k := range p {
+			p[k] = byte('a' + (i*7+k)%26)
+		}
+		buf := append([]byte(nil), p...)
+		wn, werr := w.Write(buf)
+		log = append(log, fmt.Sprintf("Write(%d)=(%d,%v)", n, wn, werr))
+		if werr != nil {
+			accepted = append(accepted, p[:wn]...)
+			// retry what was not written
+			buf = append([]byte(nil), p[wn:]...)
+			wn2, werr2 := w.Write(buf)
+			log = append(log, fmt.Sprintf("retry Write(%d)=(%d,%v)", len(buf), wn2, werr2))
+			retried = true
+			if werr2 != nil {
+				run.Count("transient_failure_retry_refused", 1)
+				return // a registry that refuses the retry is within its rights; nothing more to learn
+			}
+			accepted = append(accepted, p[wn:]...)
+			continue
+		}
+		accepted = append(accepted, p...)
+	}
+	wit := map[string]any{"chunk_size": cs, "hint": hint, "failed_patch_no": fn.n, "calls": log, "accepted_len": len(accepted)}
+	_, cerr := w.Commit(ociregistry.Digest(model.Digest(accepted)))
+	if !fn.fired || !retried {
+		run.Count("transient_failure_not_reached", 1)
+	} else {
+		run.Count("transient_failures_retried", 1)
+		run.Distinct(fmt.Sprintf("transient-failure/patch=%d/hint=%d", fn.n, hint))
+	}
+	if cerr != nil {
+		run.Violation("transient-failure/commit-failed", fmt.Sprintf("after a refused request and a retried Write, Commit with the digest of the %d bytes the Writes accepted failed: %v", len(accepted), cerr), wit)
+		return
+	}
+	data, gerr := readBlob(reg, "t/r", model.Digest(accepted))
+	if gerr != nil || !bytes.Equal(data, accepted) {
+		run.Violation("transient-failure/content", fmt.Sprintf("committed content differs from what the Writes accepted (err=%v, %d vs %d bytes)", gerr, len(data), len(accepted)), wit)
+	}
+}
+
 func main() {
 	run := evid.Start("C04", "exploration")
 	run.SetRule("a case is one upload scenario: (stack, content, partition into Write calls, chunk-size hint, subset of write boundaries with close-and-resume, resume mode {at Size(), -1}, fault {none, wrong-offset resume, wrong commit digest}). Enumerated completely for content lengths 0..L on the in-memory registry (quick L=6, thorough L=9) and 0..5/0..7 over one HTTP hop; sampled for the other stacks and for contents of up to 5 registry chunks (8 KiB) with hints around the minimum. " +
@@ -488,6 +583,10 @@ func main() {
 	}
 	run.FloorCounter("clean_commits", 1000)
 	run.FloorCounter("resumes", 500)
+	for i, n := 0, run.N(120, 3000); i < n; i++ {
+		transientFailure(run, i)
+	}
+	run.FloorCounter("transient_failures_retried", 30)
 	run.FloorCounter("wrong_offset_resumes", 50)
 	run.FloorCounter("wrong_offset_data_sent_by_commit", 10)
 	run.FloorCounter("wrong_digest_commits", 50)
